@@ -547,6 +547,34 @@ func VerifC04_ExtendGuard() {
 	verif.Reached("end")
 }
 
+// (e') the next owner given as a certificate chain: the key that counts is the
+// leaf's (the key that becomes owner), whatever the issuing certificates use.
+func VerifC04_ExtendGuardChain() {
+	verif.NoPanic()
+	verif.Expect("extended")
+	verif.Bound("C04e chain", "manufacturer/current owner kind x leaf kind x issuer kind in {P-256, P-384, RSA-2048, RSA-3072}^3; next owner passed as an X.509 chain [leaf, issuer] or [leaf]; extension by the current owner")
+	mk := verif.Choose("kind", vcKinds)
+	mfg := &verif.ModelSigner{Pub: vcPub(mk, "mfg")}
+	secret := verif.Bytes("secret", 32)
+	v, _ := vwHonestVoucher(mk, mfg, 0, secret)
+	lk := verif.Choose("leafkind", vcKinds)
+	leaf := vcPub(lk, "leaf")
+	chain := []*x509.Certificate{verif.NewCert(leaf, verif.Bytes("lserial", 4))}
+	if verif.Choose("withissuer", 2) == 1 {
+		ck := verif.Choose("issuerkind", vcKinds)
+		chain = append(chain, verif.NewCert(vcPub(ck, "issuer"), verif.Bytes("iserial", 4)))
+	}
+	x, err := ExtendVoucher(v, mfg, chain, nil)
+	if err == nil {
+		verif.Assert(lk == mk, "extension to a certificate chain succeeds only if the leaf key has the manufacturer key's type and size")
+		verif.Assert(x.VerifyEntries() == nil, "a successful extension verifies")
+		o, err := x.OwnerPublicKey()
+		verif.Assert(err == nil && verif.BytesEq(verif.KeyID(o), verif.KeyID(leaf)), "after extension the leaf key is reported as owner")
+		verif.Reached("extended")
+	}
+	verif.Reached("end")
+}
+
 // (c) reorder / splice: swapping the two entries of an honest chain, or taking an
 // entry from another voucher (different GUID) is rejected.
 func VerifC04_SpliceReorder() {
